@@ -69,19 +69,24 @@ fn lsp_sets(order: usize, full_upto: usize) -> Vec<Vec<f64>> {
 
 /// returns the pulse responses of the first and of the second (stationary) frame
 fn response(order: usize, stage: usize, log_gain: bool, alpha: f64, beta: f64, params: &[f64], max_rate: usize) -> Result<(Vec<f64>, usize, f64, Vec<f64>), String> {
+    response_vol(order, stage, log_gain, alpha, beta, params, max_rate, 1.0)
+}
+/// the same on a vocoder constructed with an output volume (a linear factor on every sample): responses are returned divided by it
+#[allow(clippy::too_many_arguments)]
+fn response_vol(order: usize, stage: usize, log_gain: bool, alpha: f64, beta: f64, params: &[f64], max_rate: usize, volume: f64) -> Result<(Vec<f64>, usize, f64, Vec<f64>), String> {
     let mut rate = 8000usize;
     loop {
         let t0 = rate / 20;
         let p = params.to_vec();
         let (buf, buf2) = catch(move || {
-            let mut v = Vocoder::new(order + 1, 0, stage, log_gain, rate, alpha, beta, 1.0, t0);
+            let mut v = Vocoder::new(order + 1, 0, stage, log_gain, rate, alpha, beta, volume, t0);
             let mut buf = vec![0.0; t0];
             v.synthesize(20f64.ln(), &p, &[], &mut buf);
             let mut buf2 = vec![0.0; t0];
             v.synthesize(20f64.ln(), &p, &[], &mut buf2);
             (buf, buf2)
         })?;
-        let s = (t0 as f64).sqrt();
+        let s = (t0 as f64).sqrt() * volume;
         let h: Vec<f64> = buf[..t0 - 2].iter().map(|x| x / s).collect();
         let h2: Vec<f64> = buf2[..t0 - 2].iter().map(|x| x / s).collect();
         if h.iter().chain(h2.iter()).any(|x| !x.is_finite()) {
@@ -103,7 +108,7 @@ pub fn run(tier: Tier) -> i32 {
     let orders: Vec<usize> = tier.pick((2..=24).filter(|o| *o <= 8 || o % 4 == 0 || *o == 23).collect(), (2..=24).collect());
     let stages: &[usize] = &[1, 2, 3, 4];
     let alphas = [0.0, 0.3, 0.6];
-    rep.set_rule("SCOPE: LSP orders x stages 1..4 x alpha {0,.3,.6} x {linear, log} gain x K {0.5,1,2}; LSP sets = all compositions of the order+1 gaps from {1,2,4} units (orders up to the full bound) or uniform + every single gap narrowed/widened (larger orders), plus for every order the two sets whose first (last) two gaps have the smallest legal spacing, all with spacing >= pi/(4(order+1)); real Vocoder pulse responses of the first and the second frame at F0=20Hz, and on every 5th case the 3rd/4th frame after a first frame with another gain (same frequencies) or with other frequencies; plus every stage 5..128 once (orders 2..4, a mildly uneven LSP set whose spectrum stays measurable after the power s); plus one thread visiting orders 24,3,23,2,16,5,.. in turn; plus vocoders cloned in the middle of a 7-frame run compared bit for bit with the original; oracle ln K - s ln|A(e^{jw~})| within 0.001 Np at grid frequencies within 100 dB of the peak, response finite and decaying; distinct = (order, stage, alpha, gain form, K, LSP set)");
+    rep.set_rule("SCOPE: LSP orders x stages 1..4 x alpha {0,.3,.6} x {linear, log} gain x K {0.5,1,2}; LSP sets = all compositions of the order+1 gaps from {1,2,4} units (orders up to the full bound) or uniform + every single gap narrowed/widened (larger orders), plus for every order the two sets whose first (last) two gaps have the smallest legal spacing, all with spacing >= pi/(4(order+1)); real Vocoder pulse responses of the first and the second frame at F0=20Hz, and on every 5th case the 3rd/4th frame after a first frame with another gain (same frequencies) or with other frequencies; plus every stage 5..128 once (vocoder output volume 1, 2 or 1/4; orders 2..4, a mildly uneven LSP set whose spectrum stays measurable after the power s); plus one thread visiting orders 24,3,23,2,16,5,.. in turn; plus vocoders cloned in the middle of a 7-frame run compared bit for bit with the original; oracle ln K - s ln|A(e^{jw~})| within 0.001 Np at grid frequencies within 100 dB of the peak, response finite and decaying; distinct = (order, stage, alpha, gain form, K, LSP set)");
     rep.assume("LSP sets on the gap lattice only; nominal rate raised (8k..8M) only to lengthen T0 until the truncated tail is < 1e-9 of the peak");
     let mut cases: Vec<(usize, usize, f64, bool, f64, Vec<f64>)> = Vec::new();
     for &order in &orders {
@@ -244,8 +249,10 @@ pub fn run(tier: Tier) -> i32 {
             params.extend(set.iter());
             rep.eval(1);
             n_sweep.fetch_add(1, Ordering::Relaxed);
-            let rp = json!({"order": order, "stage": stage, "alpha": alpha, "log_gain": lg, "params_gain_then_lsp": params, "f0_hz": 20});
-            match response(order, stage, lg, alpha, 0.0, &params, 8_000_000) {
+            // the vocoder's own output volume (a plain factor) cycles through 1, 2 and 1/4
+            let volume = [1.0, 2.0, 0.25][(i / 9) % 3];
+            let rp = json!({"order": order, "stage": stage, "alpha": alpha, "log_gain": lg, "params_gain_then_lsp": params, "f0_hz": 20, "vocoder_volume": volume});
+            match response_vol(order, stage, lg, alpha, 0.0, &params, 8_000_000, volume) {
                 Err(p) => rep.violation(format!("panic@{}", site_of(&p)), p, rp),
                 Ok((h, _rate, tail, h2)) => {
                     if tail.is_nan() || tail > 1e-6 {
